@@ -168,6 +168,15 @@ def handle (mode : String) (line : String) : String :=
       | _ => "violates unparsable-observation"
     | "tablerace" :: _ =>
       if obs.startsWith "race ok" then "ok" else s!"violates one logical connection per peer: {obs}"
+    | "serve" :: "muxlive" :: _ =>
+      match words obs with
+      | ["muxlive", "a", a, "b", b, "added", ad, "newroute", nr, "create", cr, "stopped", st] =>
+        if b != "1" then "violates while one peer's handler was running and the application added a route, another peer's request was not served"
+        else if a != "1" || nr != "1" || ad != "1" then s!"violates a route added at run time: slow peer answered {a}, Handle returned in time {ad}, new route served {nr}"
+        else if cr != "1" then "violates a handler that registers a route itself did not return / the route it created is not served"
+        else if st != "1" then "violates Serve did not return after Stop()"
+        else "ok"
+      | _ => "violates unparsable-observation"
     | "serve" :: "tcpmonitor" :: _ =>
       match words obs with
       | ["monitor", "answered", g, order] =>
